@@ -666,6 +666,11 @@ impl World for WorldT {
             };
             ctx.trace_str(eff.kind());
             ex.run_op(ctx, &eff);
+            if i % 3 == 1 && !ctx.stopped() {
+                let addrs = ex.p.clone();
+                let tk = ex.token.clone();
+                crate::surface::probe_unlisted(ctx, &mut ex.sim, &tk, "interchain-token", &addrs, &["C12", "C07", "C06"], &["C12", "C07", "C06"]);
+            }
             if !matches!(op, TOp::Resubmit { .. } | TOp::Advance { .. }) {
                 ex.history.push(op.clone());
             }
